@@ -69,6 +69,12 @@ def stop_loop_spec():
         c.ghost['g_where'] = c.fresh('where', IntInt)   # snapshot[m] is tracked at position g_where[m] (if still tracked)
         c.assume(z3.ForAll([i], z3.Select(c.ghost['g_where'], i) == i, patterns=[z3.Select(c.ghost['g_where'], i)]))
         env['$flag_entry'] = c.harr('flag')
+        th = c.read(env['self'], 'thread')
+        me = c.ghost.get('cur_thread')
+        if me is not None:
+            # a step still in progress could start another timed source after the snapshot was taken
+            c.prove('stop:order/sources-are-collected-only-after-the-thread-has-ended',
+                    z3.Or(th.e == me, z3.Not(c.hget(th, 'alive'))), tags=('C12',))
 
     def inv(it, env):
         c, g = it.c, it.c.ghost
